@@ -80,6 +80,9 @@ benign("C07", "oversize-reset-unconditional", "fsm/state.go", "\tif oversize {\n
 benign("C07", "oversize-reset-deferred", "fsm/state.go", "\t// the 'oversize' transactions ran inside a wrapper that is dropped on return: discard the FSM caches that still hold their effects\n\tif oversize {\n\t\ts.ResetCaches()\n\t}\n",
        "\tdefer func() {\n\t\tif oversize {\n\t\t\ts.ResetCaches()\n\t\t}\n\t}()\n")
 fire("C11", "R7", "oversize-caches-kept", "fsm/state.go", "\t// the 'oversize' transactions ran inside a wrapper that is dropped on return: discard the FSM caches that still hold their effects\n\tif oversize {\n\t\ts.ResetCaches()\n\t}\n", "")
+benign("C07", "tracker-clone-inner-maps-clone", "fsm/byzantine.go", [("import (\n\t\"github.com/canopy-network/canopy/lib\"\n\t\"github.com/canopy-network/canopy/lib/crypto\"\n\t\"slices\"\n)", "import (\n\t\"github.com/canopy-network/canopy/lib\"\n\t\"github.com/canopy-network/canopy/lib/crypto\"\n\t\"maps\"\n\t\"slices\"\n)"),
+       ("\t\tcp := make(map[uint64]uint64, len(m))\n\t\tfor chainId, percent := range m {\n\t\t\tcp[chainId] = percent\n\t\t}\n\t\tclone[addr] = cp\n", "\t\tclone[addr] = maps.Clone(m)\n")], None)
+fire("C07", "R7", "tracker-clone-shares-inner-maps", "fsm/byzantine.go", "\t\tcp := make(map[uint64]uint64, len(m))\n\t\tfor chainId, percent := range m {\n\t\t\tcp[chainId] = percent\n\t\t}\n\t\tclone[addr] = cp\n", "\t\tclone[addr] = m\n")
 # ---------------------------------------------------------------- C08
 fire("C08", "R1", "unsorted-sequential-commit", "store/smt.go", "\tsort.Slice(s.operations, func(i, j int) bool {\n\t\treturn s.operations[i].Key.cmp(s.operations[j].Key) < 0\n\t})\n\t// execute in a single tree", "\t// execute in a single tree")
 fire("C08", "R2", "cleanup-not-deferred", "store/smt.go", "\tdefer func() {\n\t\tif cleanupErr := cleanup(); cleanupErr != nil && err == nil {\n\t\t\terr = cleanupErr\n\t\t}\n\t}()\n", "\t_ = cleanup\n")
@@ -120,6 +123,8 @@ fire("C11", "R8", "proposer-counts-results-too", "lib/tx.go", "\ta.BlockSize += 
 fire("C11", "R8", "replica-measures-encoded-block", "lib/certificate.go", "\tif txsSize > maxBlockSize {\n", "\tif txsSize+len(x.Block)/64 > maxBlockSize {\n")
 benign("C11", "replica-size-loop-by-index", "lib/certificate.go", "\tfor _, tx := range block.Transactions {\n\t\ttxsSize += len(tx)\n\t}\n\tif txsSize > maxBlockSize {\n",
        "\tfor i := 0; i < len(block.Transactions); i++ {\n\t\ttxsSize = txsSize + len(block.Transactions[i])\n\t}\n\tif maxBlockSize < txsSize {\n")
+benign("C11", "orders-scan-sorted-copy", "fsm/swap.go", [("\t\"math\"\n\t\"sort\"\n", "\t\"math\"\n\t\"slices\"\n\t\"sort\"\n"), ("\t\t// for each transaction in the block\n\t\tfor _, tx := range b.Transactions {", "\t\t// scan a copy ordered by index (the block result itself is shared and stays as it is)\n\t\ttxs := slices.Clone(b.Transactions)\n\t\tslices.SortStableFunc(txs, func(x, y *lib.TxResult) int { return int(x.Index) - int(y.Index) })\n\t\t// for each transaction in the block\n\t\tfor _, tx := range txs {")], None)
+fire("C11", "R10", "orders-scan-sorts-block-in-place", "fsm/swap.go", [("\t\"math\"\n\t\"sort\"\n", "\t\"math\"\n\t\"slices\"\n\t\"sort\"\n"), ("\t\t// for each transaction in the block\n\t\tfor _, tx := range b.Transactions {", "\t\tslices.SortStableFunc(b.Transactions, func(x, y *lib.TxResult) int { return int(y.Transaction.Fee) - int(x.Transaction.Fee) })\n\t\t// for each transaction in the block\n\t\tfor _, tx := range b.Transactions {")], None)
 # ---------------------------------------------------------------- C12
 fire("C12", "R2", "marker-at-other-height", "fsm/validator.go", "\tvalidator.UnstakingHeight = finishUnstakingHeight\n", "\tvalidator.UnstakingHeight = finishUnstakingHeight + 1\n")
 fire("C12", "R3", "stake-without-supply", "fsm/message.go", "\tif err = s.AddToStakedSupply(msg.Amount); err != nil {\n\t\treturn err\n\t}\n", "")
